@@ -108,4 +108,4 @@ def main():
                           "fundamental dimensions mid-history are outside the property's operations",
                           "mixed-base (SI x IEC) prefix products leave the exact model; the history is compared up to that point"])
 
-main()
+guarded(main, "C01")
